@@ -93,10 +93,12 @@ func (cp *CollectingProcess) startUDPServer() {
 			klog.Error(err)
 			return
 		}
+		// Must happen before the address is published: a caller which waits for
+		// GetAddress() before calling Stop() must find the counter already incremented.
+		cp.wg.Add(1)
 		cp.updateAddress(conn.LocalAddr())
 		klog.Infof("Start UDP collecting process on %s", cp.netAddress)
 		defer conn.Close()
-		cp.wg.Add(1)
 		go func() {
 			defer cp.wg.Done()
 			for {
